@@ -48,4 +48,26 @@ theorem pinned_foreign_entry_becomes_head :
     (joinCore (Log.empty 9) [x] [x] 9).heads = [x] ∧ (joinCore (Log.empty 9) [x] [x] 9).entries = [] := by
   decide
 
+/-- the reload route: what `Load` hands to `Join` was written for this log, entry by entry (after the
+`fix:` commit, finding F27), so the hypothesis of `only_verified_same_database_entries_merged` and of
+`listed_entries_are_members` — every entry of the incoming log carries our log id — holds on this
+route as it does for the replicator's batches -/
+theorem load_hands_only_own_entries_to_join (id : Nat) (fetch : Nat → OMap) (h : Nat) :
+    ∀ e ∈ ownFetch id fetch h, e.logId = id := by
+  intro e he
+  unfold ownFetch at he
+  simpa using (List.mem_filter.mp he).2
+
+/-- Refutation witness for the tree before that repair: entry 3 of this log (by a writer) names
+entry 2 — written for ANOTHER log by anybody — in its `refs`; fetched from the cached head 3 it is a
+head of the fetched log, and `Join` made it a head of the store's log after a restart, listed and
+indexed (replayed on the real store: corpus/C04/f27). With the filter it stays out. -/
+theorem foreign_entry_came_back_through_load_before_the_fix :
+    let w : Entry := { hash := 3, logId := 1, time := 3, cid := 1, next := [], refs := [2] }
+    let f : Entry := { hash := 2, logId := 7, time := 2, cid := 9, next := [], ident := 9, key := 9 }
+    let fetch : Nat → OMap := fun _ => [w, f]
+    (∃ L, loadHead { wildcard := true } fetch (-1) (Log.empty 1) 3 = .ok L ∧ f ∈ L.heads) ∧
+    (∃ L, loadHead { wildcard := true } (ownFetch 1 fetch) (-1) (Log.empty 1) 3 = .ok L ∧ f ∉ L.heads ∧ f ∉ L.entries) := by
+  refine ⟨⟨_, rfl, ?_⟩, ⟨_, rfl, ?_, ?_⟩⟩ <;> decide
+
 end Orbit.C04
